@@ -123,16 +123,30 @@ def run(R):
         # Request::into_http installs what it was given
         rh = tonic.body('request::Request::<T>::into_http')
         R.saw(rh)
-        for setter, argname in (('version_mut', 'version'), ('method_mut', 'method'), ('uri_mut', 'uri')):
-            sb = rh.calls(name=setter)
+        # each of version / method / uri: the parameter of that type is what ends up in the request head — through the setter
+        # (*request.uri_mut() = uri) or by filling in http::request::Parts (head.uri = uri; Request::from_parts(head, body))
+        for fld, ty in (('version', r'(^|::)Version$'), ('method', r'(^|::)Method$'), ('uri', r'(^|::)Uri$')):
+            pn_ = param_of_type(rh, ty)
             okv = False
-            for bb, t in sb:
+            how = None
+            for bb, t in rh.calls(name=fld + '_mut'):
                 for wb, i, st in mirlib.assignments(rh, lambda st: st['p'].get('pr') == ['*'] and st['p']['l'] == t['dest']['l']):
-                    v = rh._origin_def(('stmt', wb, i, st['rv']), 0, set())
-                    okv = v[0] == 'arg' and v[2] == argname
-            R.check(okv, 'C03.R1', 'Request::into_http:%s' % argname, site(rh), '*request.%s() = %s' % (setter, argname))
+                    v = strip_refs(rh._origin_def(('stmt', wb, i, st['rv']), 0, set()))
+                    okv = v[0] == 'arg' and v[1] == pn_
+                    how = '*request.%s_mut() = %s' % (fld, show(v))
+            for wb, i, st in mirlib.assignments(rh, lambda st: mirlib.place_fields(st['p'])[-1:] == [fld]):
+                tyl = rh.ty(st['p']['l'])
+                if 'Parts' in tyl and 'request' in tyl:
+                    v = strip_refs(rh._origin_def(('stmt', wb, i, st['rv']), 0, set()))
+                    fp = rh.calls(pat='http::Request', name='from_parts')
+                    okv = v[0] == 'arg' and v[1] == pn_ and len(fp) == 1 and mirlib.root_local(rh, fp[0][1]['args'][0]) == st['p']['l'] and fp[0][1]['dest']['l'] == 0
+                    how = 'parts.%s = %s; Request::from_parts(parts, ..)' % (fld, show(v))
+            R.check(okv, 'C03.R1', 'Request::into_http:%s' % fld, site(rh), 'the %s parameter is installed in the request: %s' % (fld, how))
         nw = rh.calls(pat='http::Request', name='new')
-        R.check(len(nw) == 1 and field_names(rh.origin(nw[0][1]['args'][0]))[-1:] == ['message'], 'C03.R1', 'Request::into_http:body', site(rh), 'http::Request::new(self.message)')
+        fp = rh.calls(pat='http::Request', name='from_parts')
+        body_src = [rh.origin(t_['args'][0]) for bb_, t_ in nw] + [rh.origin(t_['args'][1]) for bb_, t_ in fp]
+        okb = [x for x in body_src if field_names(x)[-1:] == ['message'] and arg_root(strip_refs(x)) == 1]
+        R.check(len(okb) == 1 and len(nw) + len(fp) <= 2, 'C03.R1', 'Request::into_http:body', site(rh), 'the http request carries self.message as its body (Request::new(self.message) or from_parts(head, self.message)): %r' % [show(x)[:60] for x in body_src])
 
     # ---------------------------------------------------------------- R2 responses
     R.describe('C03.R2', 'responses: map_response and Status::into_http insert content-type: application/grpc; nothing in tonic overrides the HTTP status of a gRPC response (http::Response::new => 200)')
